@@ -184,6 +184,7 @@ class Build:
         self.nets = []          # keeps every network alive during the build (ids stay unique)
         self.netidx = {}
         self.obs = []
+        self.containers = []    # (network, governing explicit map or None) of the root and of every SPA container
         self.seeds = sorted({s for s, _ in decls if s is not None} | set(self._seeds(tree)))
 
     def _seeds(self, t):
@@ -215,6 +216,8 @@ class Build:
         if t[0] == "P":
             net = nengo.Network(seed=t[1])
             self.reg(net)
+            if not len(ctx):
+                self.containers.append((net, gov, i))
             with net:
                 for c in t[2]:
                     self.node(c, gov)
@@ -226,6 +229,7 @@ class Build:
             self.reg(net)
             self.obs.append(dict(net=i, root=root, gov=g, map=net.vocabs, res=("C",), arg=None))
             if t[0] == "S":
+                self.containers.append((net, g, i))
                 with net:
                     for c in t[3]:
                         self.node(c, g)
@@ -269,10 +273,31 @@ class Build:
         with warnings.catch_warnings():
             warnings.simplefilter("ignore")
             root = self.node(self.tree, None)
+            # second stage ("with model.part: ..." after the model's own block was closed): the root and every SPA
+            # container is entered again ON ITS OWN and gets one more module with an integer dimensionality; it
+            # belongs to the same model, so the clauses of oracle_model apply to it unchanged.  (Oracle only: the
+            # construction scripts of the Lean model have no re-entry.)
+            n_master = len(spa.Network._master_vocabs)
+            dims_seen = [o["arg"][1] for o in self.obs if o["arg"] and o["arg"][0] == "d" and o["arg"][1] >= 1] or [4]
+            for ci, (net, g, ni) in enumerate(self.containers):
+                if not isinstance(net, nengo.Network) or (ci + len(self.obs)) % 2:
+                    continue
+                d2 = dims_seen[ci % len(dims_seen)]
+                try:
+                    with net:
+                        m2 = make_module("State", d2)
+                    res2, mp2 = ("V", m2.vocab), m2.vocabs
+                except Exception as e:  # noqa: BLE001
+                    res2, mp2 = ("EXC", type(e).__name__ + ":" + str(e)[:60]), None
+                self.obs.append(dict(net=f"stage2-in-{ni}", root=0, gov=g, map=mp2, res=res2, arg=("d", int(d2), "py"),
+                                     stage2=True))
+            # a plain root that needed no map of its own so far gets one now: not part of the modelled script
+            self.stage2_master = len(spa.Network._master_vocabs) - n_master
         for o in self.obs:
             o["seed"] = seed_of(o["map"].rng, self.seeds) if o["map"] is not None else None
         self.nets = None
         self.netidx = None
+        self.containers = None      # (keeps no network alive: dropped models must really disappear)
         return root
 
 
@@ -332,6 +357,8 @@ def signature(b, ext):
                 return f"E{k}"
         return names.setdefault(id(o), f"{prefix}{len(names)}")
     for o in b.obs:
+        if o.get("stage2"):
+            continue            # not part of the modelled construction script
         r = o["res"]
         sig.append((o["net"], o["root"], nm(o["map"], "m"), o["seed"], r[0] if r[0] != "V" else nm(r[1], "v")))
     return sig
@@ -380,7 +407,8 @@ class Run:
             if skey in self.sigs and self.sigs[skey][0] != sig:
                 ctx.fail(dict(case, other_history=self.sigs[skey][1]), sig, self.sigs[skey][0], where="order-independent")
             self.sigs.setdefault(skey, (sig, toks[:mi]))
-        master_delta = len(spa.Network._master_vocabs) - base
+        master_delta = len(spa.Network._master_vocabs) - base - sum(
+            b.stage2_master for (drop, _, _), b in zip(models, builds) if not drop)
         # distinct across models: an automatically created vocabulary (or map) is never seen in two models
         owner = {}
         for mi, b in enumerate(builds):
@@ -421,10 +449,11 @@ class Run:
         for mi, (b, mtxt) in enumerate(zip(builds, body.split("|"))):
             outs = [] if mtxt == "-" else mtxt.split(",")
             case = dict(case0, model_index=mi)
-            if len(outs) != len(b.obs):
-                ctx.diff(case, len(b.obs), len(outs), op="count")
+            scripted = [o for o in b.obs if not o.get("stage2")]
+            if len(outs) != len(scripted):
+                ctx.diff(case, len(scripted), len(outs), op="count")
                 continue
-            for o, txt in zip(b.obs, outs):
+            for o, txt in zip(scripted, outs):
                 net, root, gov, mp, seed, res, lab = txt.split(":")
                 c = dict(case, net=o["net"])
                 if (int(net), int(root), gov) != (o["net"], o["root"], tok_opt(o["gov"])):
